@@ -447,17 +447,23 @@ def real_history_child(a):
 
     def mk_params():
         if mode == "strong":
-            return StrongSimParams([Observable(Z(), i) for i in range(n)], num_traj=num_traj, show_progress=False)
+            # layer sampling on: the number of result columns depends on the circuit of *this* run
+            return StrongSimParams([Observable(Z(), i) for i in range(n)], num_traj=num_traj, show_progress=False, sample_layers=True)
         if mode == "weak":
             return WeakSimParams(shots, show_progress=False)
         return AnalogSimParams([Observable(Z(), i) for i in range(n)], elapsed_time=0.3, dt=0.1, num_traj=num_traj, show_progress=False, order=order)
 
-    def mk_op():
+    def mk_op(nb=0):
+        """nb = number of SAMPLE_OBSERVABLES barriers (strong mode): successive runs on the shared object use different circuits"""
         if mode == "analog":
             return MPO.ising(n, 1.0, 0.5)
         c = QuantumCircuit(n)
         c.x(0)                       # deterministic outcome in the computational basis (weak mode is then exact)
+        if mode == "strong" and nb >= 1:
+            c.barrier(label="SAMPLE_OBSERVABLES")
         c.cx(0, 1)
+        if mode == "strong" and nb >= 2:
+            c.barrier(label="sample_observables")
         c.rzz(0.4, 1, 2)
         if mode == "weak":
             c.measure_all()
@@ -465,12 +471,15 @@ def real_history_child(a):
 
     del obs
     shared = mk_params()
-    op = mk_op()
     state = MPS(n, state="basis", basis_string=basis)
     out = []
-    for kind_tok, parallel in runs:
+    nbs = [rng.choice([2, 1, 0]) for _ in runs]
+    if len(set(nbs)) == 1:
+        nbs[-1] = (nbs[-1] + 1) % 3
+    for run_idx, (kind_tok, parallel) in enumerate(runs):
         noise = {"N": None, "Z": zero, "S": nm}[kind_tok]
         nf = kind_tok != "S"
+        op = mk_op(nbs[run_idx])
         simulator.run(state, op, shared, noise, parallel=parallel)
         rec = {"nf": nf, "parallel": parallel}
         if mode == "weak":
@@ -482,7 +491,7 @@ def real_history_child(a):
             rec["res"] = [np.asarray(o.results, dtype=float).reshape(-1).tolist() for o in shared.observables]
         if nf:
             fr = mk_params()
-            simulator.run(MPS(n, state="basis", basis_string=basis), mk_op(), fr, noise, parallel=False)
+            simulator.run(MPS(n, state="basis", basis_string=basis), mk_op(nbs[run_idx]), fr, noise, parallel=False)
             if mode == "weak":
                 rec["fresh"] = {int(k): int(v) for k, v in fr.results.items()}
             else:
